@@ -1,6 +1,7 @@
 import SppModel.Lemmas.KernelLink
 import SppModel.Lemmas.Loop
 import SppModel.Generated.LoopKernels
+import SppModel.Frozen.LoopKernels
 /-!
 # Kernel specification — `kernels.mask_channels` as translated computes its definition (C07, C16)
 
@@ -11,10 +12,10 @@ of an index expression, a loop bound or an operand in the source changes the gen
 the proof.
 -/
 namespace SppModel.KernelSpecs
-open SppModel SppModel.Loop SppModel.Generated.LoopKernels SppModel.KernelSpecs.LinkB
+open SppModel SppModel.Loop SppModel.Frozen.LoopKernels SppModel.KernelSpecs.LinkB
 
 /-- the kernel was recognised by the translator on this run -/
-theorem mask_channels_translated : ∀ f ∈ translationFailures, f.1 ∉ ["kernels_py_loops", "loop_mask_channels"] := by decide
+theorem mask_channels_translated : ∀ f ∈ Generated.LoopKernels.translationFailures, f.1 ∉ ["kernels_py_loops", "loop_mask_channels"] := by decide
 
 /-- `mask_channels`: cell `C*t + c` (`c < C`, `t < n`) becomes `maskvalue` iff `mask[c]`; nothing else changes -/
 private theorem mask_channels_inner (a : Nat → Rat) (v : Rat) (C n c k : Nat) (hc : c < C) :
@@ -114,7 +115,7 @@ theorem mask_block_link (flat : List Int) (C : Nat) (b : Plan.Blk) (mask : List 
 /-- the executable twin run by the correspondence check (`K` requests of the driver) is the same function:
     it only tabulates the loop state after each iteration (`Loop.forRangeM_eq`) -/
 theorem mask_channels_exec_eq (memo : Nat) (arr : Nat → Rat) (mask : Nat → Bool) (v : Rat) (C n : Nat) :
-    mask_channels_exec memo arr mask v C n = mask_channels arr mask v C n := by
-  simp only [mask_channels_exec, mask_channels, Loop.forRangeM_eq]
+    Generated.LoopKernels.mask_channels_exec memo arr mask v C n = Generated.LoopKernels.mask_channels arr mask v C n := by
+  simp only [Generated.LoopKernels.mask_channels_exec, Generated.LoopKernels.mask_channels, Loop.forRangeM_eq]
 
 end SppModel.KernelSpecs
